@@ -803,7 +803,7 @@ def cmp_own_xml(L, viol, J, R):
     L.count("fields compared: own reader xml", nfields[0])
 
 
-def cmp_own_html(L, viol, J, R, T, angular):
+def cmp_own_html(L, viol, J, R, T, angular, ys="+1"):
     """gama's read_html against the XML of the same run, for the quantities the HTML carries, to the HTML's printed
     precision (coordinates 5 decimals, angles 6 decimals of a gon or 0.01", standard deviations / f / studentized
     residuals 1 decimal, [pvv] 6 significant digits, m0 2 decimals, test bounds 3 decimals)"""
@@ -935,6 +935,9 @@ def cmp_own_html(L, viol, J, R, T, angular):
                 elif ang:
                     close("obs:%s:angular" % f, "angle / printed precision", abs(wrap400(a[f] - b[f])), 0.0, hang + 1e-9,
                           "%s of observation %d (%s): %.7f vs %.7f gon" % (f, k + 1, b["tag"], a[f], b[f]))
+                elif (b["tag"] in ("coordinate-y", "dy") and ys == "-1" and abs(a[f] + b[f]) <= 0.5e-5 + 1e-9 < abs(b[f])):
+                    viol(P + "obs:%s:y-sign" % f, "%s of observation %d (%s): read_html %.5f, XML %.5f (the HTML lists this y "
+                         "with the internal sign)" % (f, k + 1, b["tag"], a[f], b[f]))
                 else:
                     close("obs:%s:linear" % f, "coordinate / printed precision", a[f], b[f], 0.5e-5 + 1e-9,
                           "%s of observation %d (%s)" % (f, k + 1, b["tag"]))
@@ -1017,6 +1020,11 @@ def cmp_octave(L, viol, V, bad, R, T, C, c):
                 if a in kv:
                     check_close(L, viol, P + "XYZ:" + a, "octave: coordinate / printed precision", float(cell), kv[a],
                                 half_ulp(cell) + 1e-9, "adjusted %s of %r" % (a, pid), " m")
+    if "XYZ_0" in V and len(V["XYZ_0"]) == len(exp) == len(V["XYZ"]):
+        for r0, r1, (pid, v) in zip(V["XYZ_0"], V["XYZ"], exp):
+            if has(v, "y") and abs(float(r1[1])) > 2.0 and abs(float(r0[1]) + float(r1[1])) < 1.0:
+                viol(P + "XYZ_0:y-sign", "approximate y of %r is %s, adjusted y %s: opposite signs in one file" % (pid, r0[1], r1[1]))
+                break
     nc = sum(1 for t in T.values() if t["kind"] != "r")
     M = V["C_xx"]
     if len(M) != nc or any(len(r) != nc for r in M):
@@ -1191,11 +1199,15 @@ def check_deformation(L, viol, out, RA, RB, selfcmp, blank):
 
 # ------------------------------------------------------------------------------------------- one case
 
+def short(cls):
+    return cls.split("-", 1)[1] if cls.startswith("special-") else cls
+
+
 def _cause(c, where=None):
     """(place, character class) to which a failure on hostile strings is attributed: a case carries XML special
     characters in exactly one place"""
     cls = c["hcls"]
-    return "%s:%s" % (c["place"], cls.split("-", 1)[1] if cls.startswith("special-") else cls)
+    return "%s:%s" % (c["place"], short(cls))
 
 
 def gkf(net, fr):
@@ -1327,15 +1339,15 @@ def _run_case(L, seed, i, tier, tmp):
                 if q.xy in ("free", "constrained") or q.z in ("free", "constrained")}
         if not xids <= eids or set(R["adjusted"]) != padj:
             odd = sorted(xids - eids)[:4] or sorted(set(R["adjusted"]) ^ padj)[:4]
-            viol("xml:content:id:" + (cause.split(":")[1] if c["place"] == "id" else c["idcls"]),
+            viol("xml:content:id:" + (cause.split(":")[1] if c["place"] == "id" else short(c["idcls"])),
                  "point ids in the XML that are not ids of the input: %r" % odd)
         xext = {norm_id(x) for x in xext}
         if not xext <= eext or not emust <= xext:
             odd = sorted(xext - eext)[:3] or sorted(emust - xext)[:3]
-            viol("xml:content:extern:" + (cause.split(":")[1] if c["place"] == "extern" else c["extcls"]),
+            viol("xml:content:extern:" + (cause.split(":")[1] if c["place"] == "extern" else short(c["extcls"])),
                  "extern values differ from the input's: %r" % [x[:60] for x in odd])
         if (R["description"] or "").strip() != c["desc"].strip():
-            viol("xml:content:description:" + (cause.split(":")[1] if c["place"] == "description" else c["desccls"]),
+            viol("xml:content:description:" + (cause.split(":")[1] if c["place"] == "description" else short(c["desccls"])),
                  "description %r, input %r" % ((R["description"] or "")[:80], c["desc"][:80]))
         try:
             T, C = unknown_table(R)
@@ -1385,7 +1397,7 @@ def _run_case(L, seed, i, tier, tmp):
                     if got != exp:
                         bad = [(a, b) for a, b in zip(got, exp) if a != b][:2]
                         ch = [nm_ for ch_, nm_ in SPECIAL_NAME.items() if any(ch_ in b for _, b in bad)]
-                        viol("cross:html:id:" + (ch[0] if ch else c["idcls"]),
+                        viol("cross:html:id:" + (ch[0] if ch else short(c["idcls"])),
                              "%s point ids in the HTML differ from the XML's: %r" % (nm, bad or (len(got), len(exp))))
             rr, J = readdrv("html", os.path.join(tmp, name + "a.out.html"))
             L.case(("own-reader-html", dimtag, "hostile " + cause, "angular " + c["angular"]))
@@ -1395,7 +1407,7 @@ def _run_case(L, seed, i, tier, tmp):
                 elif "exception" in J:
                     viol("own-reader-html:refused:" + cause, "read_html refuses gama-local's HTML: %s" % J)
                 else:
-                    cmp_own_html(L, viol, J, R, T, c["angular"])
+                    cmp_own_html(L, viol, J, R, T, c["angular"], ysign(fr))
     # ---- SVG
     svgA = gA.files.get("svg")
     if svgA is not None and net.dim >= 2:
@@ -1407,7 +1419,7 @@ def _run_case(L, seed, i, tier, tmp):
             texts = {"".join(t.itertext()) for t in sroot.iter("{http://www.w3.org/2000/svg}text")}
             pts = {p for sec in ("fixed", "adjusted") for p, v in R[sec].items() if has(v, "x")}
             if not pts <= texts:
-                viol("svg:content:id:" + c["idcls"], "point labels missing in the SVG: %r" % sorted(pts - texts)[:4])
+                viol("svg:content:id:" + short(c["idcls"]), "point labels missing in the SVG: %r" % sorted(pts - texts)[:4])
     # ---- text of the main run
     S = None
     textA = gA.files.get("text")
@@ -1560,7 +1572,10 @@ def languages(L, viol, c, base, tmp, name, txtA, args, R, S):
             try:
                 te = eb.decode("ascii")
             except UnicodeDecodeError as e:
-                viol("text:%s:undecodable" % enc, "flat output is not ASCII (--language %s): %s" % (lang, e))
+                raw = eb[e.start:e.start + 4]
+                ok8 = any(raw[:n].decode("utf-8", "ignore") for n in (2, 3, 4))
+                viol("text:%s:%s" % (enc, "not-recoded" if ok8 else "undecodable"), "flat output is not ASCII (--language %s): "
+                     "%s%s" % (lang, e, "; the bytes are raw UTF-8" if ok8 else ""))
                 continue
             if len(_sq(te)) != len(_sq(tu)):
                 viol("text:%s:length" % enc, "flat output has %d characters, UTF-8 output %d, runs of blanks counted once "
@@ -1568,12 +1583,19 @@ def languages(L, viol, c, base, tmp, name, txtA, args, R, S):
         else:
             eb_, want = _sq(eb), _sq(want)
             if eb_ != want:
+                tw = _sq(tu)
+                kb = next((j for j in range(min(len(eb_), len(want))) if eb_[j] != want[j]), min(len(eb_), len(want)))
+                u8 = tw[kb].encode("utf-8") if kb < len(tw) else b""
+                if len(u8) > 1 and eb_[kb:kb + len(u8)] == u8:
+                    ln = tw[tw.rfind("\n", 0, kb) + 1:kb + 20]
+                    viol("text:%s:not-recoded" % enc, "the output mixes encodings: %r is written as raw UTF-8 bytes %r in "
+                         "the line %r (--language %s)" % (tw[kb], u8, ln[:80], lang))
+                    continue
                 try:
                     td = eb_.decode(codec)
                 except UnicodeDecodeError as e:
                     viol("text:%s:undecodable" % enc, "output does not decode as %s (--language %s): %s" % (enc, lang, e))
                     continue
-                tw = _sq(tu)
                 k = next((j for j in range(min(len(td), len(tw))) if td[j] != tw[j]), min(len(td), len(tw)))
                 cp = "U+%04X" % ord(tw[k]) if k < len(tw) else "length"
                 viol("text:%s:bytes:%s" % (enc, cp), "output is not the %s encoding of the UTF-8 output of the same run: "
